@@ -49,6 +49,7 @@ func c02Pool(evs []*mocrelay.Event, authors []string) *gen.FilterPool {
 	p.TagNames = []string{"e", "p", "t", "E", "q"}
 	p.AllowEmptyTagsMap = true
 	p.MaxLimit = 4
+	p.BigLimits = true
 	return p
 }
 
@@ -305,5 +306,64 @@ func TestC02LimitSequences(t *testing.T) {
 		col.Case(flips > 0, hx.JSON([]any{briefAll(evs), gen.BriefFilters(fs), seq}), func() any {
 			return map[string]any{"events": briefAll(evs), "filters": gen.BriefFilters(fs), "sequence": seq}
 		})
+	})
+}
+
+// TestC02WideFilters: filters with many #x conditions (up to all 52 single-letter names).
+// An event that carries every named tag matches; one that misses a single one of them
+// (any position in the sorted order of names) does not.
+func TestC02WideFilters(t *testing.T) {
+	col := ev.For("C02").SetRule("wide: a filter with k in 1..52 single-letter tag conditions (k boosted around 31-34 and 52), an event carrying all named tags and copies of it that lack one tag or carry another value for it; Match, the list matcher and LimitMatch must agree with the naive predicate; non-trivial = k >= 2; distinct by hash of names and the dropped positions")
+	letters := strings.Split("abcdefghijklmnopqrstuvwxyzABCDEFGHIJKLMNOPQRSTUVWXYZ", "")
+	rapid.Check(t, func(t *rapid.T) {
+		k := rapid.OneOf(rapid.SampledFrom([]int{31, 32, 33, 34, 52, 52, 40, 8}), rapid.IntRange(1, 52)).Draw(t, "k")
+		names := rapid.Permutation(letters).Draw(t, "names")[:k]
+		f := &mocrelay.ReqFilter{Tags: map[string][]string{}}
+		full := &mocrelay.Event{Pubkey: gen.Keys[0].Pub, Kind: 1, CreatedAt: 100, Tags: []mocrelay.Tag{}}
+		for i, n := range names {
+			vals := []string{"x"}
+			if i%3 == 1 {
+				vals = []string{"y", "x"}
+			}
+			f.Tags[n] = vals
+			full.Tags = append(full.Tags, mocrelay.Tag{n, "x"})
+		}
+		if rapid.Bool().Draw(t, "kinds") {
+			f.Kinds = []int64{1}
+		}
+		gen.Seal(full)
+		evs := []*mocrelay.Event{full}
+		var dropped []int
+		for j, nd := 0, rapid.IntRange(1, 4).Draw(t, "nvariants"); j < nd; j++ {
+			pos := rapid.IntRange(0, k-1).Draw(t, fmt.Sprintf("drop%d", j))
+			x := gen.CloneEvent(full)
+			if rapid.Bool().Draw(t, fmt.Sprintf("drop%dhow", j)) {
+				x.Tags = append(append([]mocrelay.Tag{}, x.Tags[:pos]...), x.Tags[pos+1:]...)
+			} else {
+				x.Tags[pos] = mocrelay.Tag{x.Tags[pos][0], "other"}
+			}
+			gen.Seal(x)
+			evs = append(evs, x)
+			dropped = append(dropped, pos)
+		}
+		desc := map[string]any{"conditions": k, "names": strings.Join(names, ""), "variants_lack_position": dropped}
+		m := mocrelay.NewReqFilterMatcher(f)
+		lm := mocrelay.NewReqFiltersEventLimitMatcher([]*mocrelay.ReqFilter{f})
+		for i, e := range evs {
+			want := gen.MatchFilter(e, f)
+			if got := m.Match(e); got != want {
+				hx.Fail(t, ev.Failure{Property: "C02", Signature: "match-decision", Clause: "Match(e) equals the NIP-01 predicate: every present #x condition must be met (filter with many tag conditions)",
+					Case: map[string]any{"case": desc, "event_variant": i, "event": gen.Brief(e)}, Observed: fmt.Sprint(got), Expected: fmt.Sprint(want)})
+			}
+			if got := lm.LimitMatch(e); got != want {
+				hx.Fail(t, ev.Failure{Property: "C02", Signature: "limitmatch-return", Clause: "LimitMatch returns whether any filter matches (filter with many tag conditions)",
+					Case: map[string]any{"case": desc, "event_variant": i}, Observed: fmt.Sprint(got), Expected: fmt.Sprint(want)})
+			}
+		}
+		if lm.Done() {
+			hx.Fail(t, ev.Failure{Property: "C02", Signature: "done", Clause: "Done() iff every filter has a limit and matched >= limit events", Case: desc, Observed: "true", Expected: "false (no limit)"})
+		}
+		col.Label("filters:wide")
+		col.Case(k >= 2, hx.JSON(desc), func() any { return desc })
 	})
 }
